@@ -14,10 +14,10 @@ import (
 type DecKind uint8
 
 const (
-	DecBranch DecKind = iota // symbolic boolean: Pick 1 = true, 0 = false
-	DecChoice                // free choice among N alternatives (harness choice, scheduler, select)
-	DecValue                 // concretisation of a symbolic integer: Pick = the value
-	DecValueNot              // marker used only as the LAST element of a queued prefix: "a value not in Excl"
+	DecBranch   DecKind = iota // symbolic boolean: Pick 1 = true, 0 = false
+	DecChoice                  // free choice among N alternatives (harness choice, scheduler, select)
+	DecValue                   // concretisation of a symbolic integer: Pick = the value
+	DecValueNot                // marker used only as the LAST element of a queued prefix: "a value not in Excl"
 )
 
 // Decision is one element of a path's decision vector.
@@ -88,59 +88,65 @@ type AssertRec struct {
 
 // Options configures one exploration (one harness entry).
 type Options struct {
-	Unit         string
-	Entry        string
-	Params       map[string]int64
-	Workers      int
-	Seed         int64
-	Unwind       int   // max symbolic decisions at the same branch instruction within one frame
-	MaxSteps     int64 // instruction budget per path
-	MaxPaths     int64 // 0 = unlimited
-	MaxConc      int   // max distinct values when concretising one symbolic integer
-	Preempt      int   // preemption bound
-	TimeoutMs    int
-	Primary      string
-	Secondary    string
-	QuickMs      int
-	Fallback     []string
-	HardTo       string
-	Deadline     time.Time
-	SampleEvery  int
-	MaxSamples   int
-	StopAtFirst  bool // stop exploring a label after its first violation (per label)
-	ExpectPanics bool
-	Trace        bool
-	NonTermViolation bool // instruction-budget / unwinding cuts are violations (termination clauses)
-	FixedModel   map[string]uint64 // concrete re-execution: nondet values come from this model
-	FixedChoices []uint64
+	Unit      string
+	Entry     string
+	Params    map[string]int64
+	Workers   int
+	Seed      int64
+	Unwind    int   // max symbolic decisions at the same branch instruction within one frame
+	MaxSteps  int64 // instruction budget per path
+	MaxPaths  int64 // 0 = unlimited
+	MaxConc   int   // max distinct values when concretising one symbolic integer
+	Preempt   int   // preemption bound
+	TimeoutMs int
+	Primary   string
+	Secondary string
+	QuickMs   int
+	Fallback  []string
+	HardTo    string
+	Deadline  time.Time
+	// KnownFP: fingerprints of recorded findings; a violation outside this set starts the grace period
+	// GraceAfterNew, after which (with no further new fingerprint) exploration stops and the run is
+	// reported as not exhaustive.  Never triggered on a tree without unlisted violations.
+	KnownFP          map[string]bool
+	GraceAfterNew    time.Duration
+	SampleEvery      int
+	MaxSamples       int
+	StopAtFirst      bool // stop exploring a label after its first violation (per label)
+	ExpectPanics     bool
+	Trace            bool
+	NonTermViolation bool              // instruction-budget / unwinding cuts are violations (termination clauses)
+	FixedModel       map[string]uint64 // concrete re-execution: nondet values come from this model
+	FixedChoices     []uint64
 }
 
 // Report is the merged outcome of an exploration.
 type Report struct {
-	Unit           string
-	Paths          int64
-	PathsDone      int64
-	PathsAssume    int64
-	PathsCut       int64
-	PathsUnsup     int64
-	UnsupReasons   map[string]int64
-	CutReasons     map[string]int64
-	States         int64 // decision-tree nodes
-	Transitions    int64
-	Obligations    int64 // vAsserts + implicit checks evaluated
-	Discharged     int64 // proved (unsat) or concretely true
-	Reach          map[string]int64
-	Violations     []*Violation
-	Samples        []*Sample
-	Solver         SolverStats
-	Functions      map[string]int64 // repo functions executed -> instruction count
-	Stubs          map[string]int64
-	Steps          int64
-	TimedOut       bool
-	InitFailures   map[string]string
-	Wall           time.Duration
-	MaxDepth       int
-	DistinctModels int
+	Unit                  string
+	Paths                 int64
+	PathsDone             int64
+	PathsAssume           int64
+	PathsCut              int64
+	PathsUnsup            int64
+	UnsupReasons          map[string]int64
+	CutReasons            map[string]int64
+	States                int64 // decision-tree nodes
+	Transitions           int64
+	Obligations           int64 // vAsserts + implicit checks evaluated
+	Discharged            int64 // proved (unsat) or concretely true
+	Reach                 map[string]int64
+	Violations            []*Violation
+	Samples               []*Sample
+	Solver                SolverStats
+	Functions             map[string]int64 // repo functions executed -> instruction count
+	Stubs                 map[string]int64
+	Steps                 int64
+	TimedOut              bool
+	StoppedAfterViolation bool
+	InitFailures          map[string]string
+	Wall                  time.Duration
+	MaxDepth              int
+	DistinctModels        int
 }
 
 type workItem struct {
@@ -152,14 +158,15 @@ type Explorer struct {
 	prog *Program
 	opt  Options
 
-	mu      sync.Mutex
-	cond    *sync.Cond
-	queue   []workItem
-	active  int
-	stop    bool
-	report  *Report
-	vioSeen map[string]int
-	rng     *rand.Rand
+	mu        sync.Mutex
+	cond      *sync.Cond
+	queue     []workItem
+	active    int
+	stop      bool
+	report    *Report
+	vioSeen   map[string]int
+	lastNewFP time.Time
+	rng       *rand.Rand
 }
 
 // Progress, when >0, prints exploration progress to stderr at this interval.
@@ -251,6 +258,13 @@ func (ex *Explorer) next() (workItem, bool) {
 			ex.cond.Broadcast()
 			return workItem{}, false
 		}
+		if ex.opt.GraceAfterNew > 0 && !ex.lastNewFP.IsZero() && time.Since(ex.lastNewFP) > ex.opt.GraceAfterNew {
+			ex.report.TimedOut = true
+			ex.report.StoppedAfterViolation = true
+			ex.stop = true
+			ex.cond.Broadcast()
+			return workItem{}, false
+		}
 		if ex.opt.MaxPaths > 0 && ex.report.Paths >= ex.opt.MaxPaths {
 			ex.report.TimedOut = true
 			ex.stop = true
@@ -297,6 +311,9 @@ func (ex *Explorer) addViolation(v *Violation) {
 	ex.mu.Lock()
 	defer ex.mu.Unlock()
 	fp := v.Fingerprint()
+	if ex.vioSeen[fp] == 0 && !ex.opt.KnownFP[fp] {
+		ex.lastNewFP = time.Now()
+	}
 	ex.vioSeen[fp]++
 	if ex.vioSeen[fp] <= 3 {
 		ex.report.Violations = append(ex.report.Violations, v)
